@@ -428,3 +428,43 @@ def proof_step(ctx, verdict, pid, extra_targets=()):
     res["assumptions"] = assm
     res["discharged"] = len([t for t in thms if t in assm])
     return res
+
+
+# --------------------------------------------------------------------------- loopback ports
+_port_cache = {}
+
+
+def free_port_base(tag, count, lo=20000, hi=60000):
+    """a base such that ports base..base+count-1 are currently bindable on loopback (probed), stable per tag within a run"""
+    import socket
+    if tag in _port_cache:
+        return _port_cache[tag]
+    seed = int(hashlib.sha256(("%s/%d" % (tag, os.getpid())).encode()).hexdigest()[:8], 16)
+    span = hi - lo - count
+    for attempt in range(200):
+        base = lo + (seed + attempt * 7919) % span
+        base -= base % 10
+        ok = True
+        socks = []
+        try:
+            for p in range(base, base + count):
+                for fam, addr in ((socket.AF_INET, "127.0.0.1"), (socket.AF_INET6, "::")):
+                    try:
+                        sk = socket.socket(fam, socket.SOCK_STREAM)
+                        sk.setsockopt(socket.SOL_SOCKET, socket.SO_REUSEADDR, 1)
+                        sk.bind((addr, p))
+                        socks.append(sk)
+                    except OSError as e:
+                        if fam == socket.AF_INET6 and e.errno in (97, 99):   # no IPv6 here
+                            continue
+                        ok = False
+                        break
+                if not ok:
+                    break
+        finally:
+            for sk in socks:
+                sk.close()
+        if ok and not any(abs(base - b) < count + 10 for b in _port_cache.values()):
+            _port_cache[tag] = base
+            return base
+    raise BuildError("no free loopback port range found")
